@@ -396,7 +396,7 @@ func check(c Case) (o h.Outcome) {
 		if subst != rest {
 			cls := "other"
 			switch {
-			case strings.TrimRight(rest, "/") == subst || strings.ReplaceAll(rest, "//", "/") == subst:
+			case strings.TrimRight(rest, "/") == strings.TrimRight(subst, "/") || strings.ReplaceAll(rest, "//", "/") == subst:
 				cls = "slashes-ignored"
 			}
 			o.Fail("not-reproduced:"+c.Router+":"+cls, "template %q with %v gives %q, the request path (after the base path) is %q", route.Path, params, subst, rest)
@@ -445,7 +445,7 @@ func check(c Case) (o h.Outcome) {
 
 // ---------------------------------------------------------------------------------------
 
-var tplPool = []string{"/a", "/a/{x}", "/a/b", "/{x}", "/{x}/b", "/a/{x}/b", "/a/{x}/{y}", "/{x}/{y}", "/b/{y}", "/b", "/a/b/c", "/a/{x}/c", "/{x}/b/{y}", "/a/b/{y}", "/a/p-{x}", "/a/p-b", "/a/{x}.json", "/a/b.json", "/a/{x}.{y}", "/{x}-{y}/b", "/a/{w}/d", "/{v}/d/{y}", "/c/{ver}", "/c/{env}/k"} // the last two: a path variable named like a server variable is another variable
+var tplPool = []string{"/", "/a", "/a/{x}", "/a/b", "/{x}", "/{x}/b", "/a/{x}/b", "/a/{x}/{y}", "/{x}/{y}", "/b/{y}", "/b", "/a/b/c", "/a/{x}/c", "/{x}/b/{y}", "/a/b/{y}", "/a/p-{x}", "/a/p-b", "/a/{x}.json", "/a/b.json", "/a/{x}.{y}", "/{x}-{y}/b", "/a/{w}/d", "/{v}/d/{y}", "/c/{ver}", "/c/{env}/k"} // the last two: a path variable named like a server variable is another variable
 var methodSets = [][]string{{"GET"}, {"POST"}, {"GET", "POST"}, {"GET", "PUT", "DELETE"}, {}} // the last one: a path item that declares no operation
 var servers = []string{"none", "/v1", "/", "/V2", "/b%20c", "abs:https+http", "/api/{ver}", "http://h.example/base", "{scheme}://h.example/base", "http://{env}.example/base", "multi:/v1,/v10", "multi:/v10,/v1", "first:/one,/two", "/api/{ver}/{area}"}
 var values = []string{"1", "abc", "a.b", "x-y_z~", "b", "a", "Xy9", "B"}
